@@ -16,7 +16,7 @@
   * "Headers that the standard forbids (version other than 1, broadcast or
     zero-length source) and truncated ones are refused with a decoding error
     rather than misread"
-        → `npci_refuses_version`, `npci_refuses_source` (SNET = 0xFFFF or SLEN = 0),
+        → `npci_refuses` = `npci_refuses_version`, `npci_refuses_source` (SNET = 0xFFFF or SLEN = 0),
           `truncation_refused` (EVERY strict prefix of a valid header),
           `decode_only_decoding_errors` (no other failure exists),
           `decode_wf` + `reparse_stable` (whatever is accepted — any of the 2^8
@@ -613,6 +613,21 @@ theorem truncation_refused (h : Npci) (hw : WF h) (hdr p s : Bytes)
     rw [List.append_nil, hcut, hext] at hfull
     simp only [Except.ok.injEq, Prod.mk.injEq, List.append_eq_nil_iff] at hfull
     exact absurd hfull.2.2 hs
+
+/-- **npci_refuses**: the three refusals of the property in one statement —
+    a version other than 1, a broadcast or zero-length source, and every strict
+    prefix of a valid header all end in a decoding error (never in a header). -/
+theorem npci_refuses :
+    (∀ bs : Bytes, bs.head? ≠ some 1 → decodeNpdu bs = .error .decoding) ∧
+    (∀ (h : Npci) (net : Nat) (mac payload : Bytes), WF { h with sadr := none } →
+        h.sadr = some (.remoteStation net mac) → mac.length ≤ 255 →
+        (net % 65536 = 65535 ∨ mac = []) →
+        ∃ bs, encodeNpdu h payload = .ok bs ∧ decodeNpdu bs = .error .decoding) ∧
+    (∀ (h : Npci), WF h → ∀ hdr p s : Bytes, encodeNpci h = .ok hdr → hdr = p ++ s → s ≠ [] →
+        decodeNpdu p = .error .decoding) :=
+  ⟨npci_refuses_version,
+   fun h net mac payload hw hs hl hbad => npci_refuses_source h net mac payload hw hs hl hbad,
+   fun h hw hdr p s henc hcut hs => truncation_refused h hw hdr p s henc hcut hs⟩
 
 /-! ## whatever is accepted is a well-formed header (nothing is misread) -/
 
